@@ -1,9 +1,15 @@
 ----------------------------- MODULE MC_Scanner -----------------------------
 EXTENDS Scanner, Json
-CONSTANT Export
+CONSTANTS Export,
+          Full      \* TRUE (thorough): also two long lines in one input, and five-line inputs
 \* three lines, one of them long, at every position
 MCInputs == { [i \in 1..3 |-> IF i = p THEN c ELSE "short"] : p \in 1..3, c \in Classes \ {"short"} }
             \cup { <<c>> : c \in Classes }
+            \cup (IF Full
+                  THEN { [i \in 1..3 |-> IF i = p THEN c1 ELSE IF i = q THEN c2 ELSE "short"] :
+                           p \in 1..3, q \in 1..3, c1 \in {"at", "huge"}, c2 \in {"below", "above", "huge"} }
+                       \cup { [i \in 1..5 |-> IF i = p THEN c ELSE "short"] : p \in 1..5, c \in {"at", "above", "huge"} }
+                  ELSE {})
 \* "expand": no input line is long, but definition expansion makes one inside the pipeline
 Consumers == {"generate", "include", "exclude", "suffix", "format", "renumber", "copyright", "rules", "expand"}
 ExportCase == (Export /\ outcome # "running") =>
